@@ -37,14 +37,17 @@ func init() {
 }
 
 type history struct {
-	next   map[common.Address]uint64
-	txAt   map[common.Hash]uint64
-	kiAt   map[lk.Key]common.Hash
-	height uint64
+	next map[common.Address]uint64
+	txAt map[common.Hash]uint64
+	kiAt map[lk.Key]common.Hash
+	// clearedAt: 8*I of every committed key image (the rig's own rule: two key
+	// images that differ by a small-order component are the same spend)
+	clearedAt map[[32]byte]common.Hash
+	height    uint64
 }
 
 func newHistory(e *mp.Engine) *history {
-	h := &history{next: map[common.Address]uint64{}, txAt: map[common.Hash]uint64{}, kiAt: map[lk.Key]common.Hash{}}
+	h := &history{next: map[common.Address]uint64{}, txAt: map[common.Hash]uint64{}, kiAt: map[lk.Key]common.Hash{}, clearedAt: map[[32]byte]common.Hash{}}
 	for i, u := range e.W.Users {
 		h.next[u.Addr] = e.W.Cfg.Nonces[i]
 	}
@@ -102,6 +105,16 @@ func (h *history) extend(e *mp.Engine, to uint64) {
 					return
 				}
 				h.kiAt[k] = hash
+				prime, cleared, err := mp.KeyImageClass(k)
+				if err != nil || !prime {
+					e.Violate("history-key-image", "history/key-image-outside-prime-order-subgroup", "block %d position %d commits key image %x (of %x) which is not a point of the prime-order subgroup (l*I != identity by the rig's own curve code; decode error: %v)", ht, i, k[:4], hash[:4], err)
+					return
+				}
+				if first, dup := h.clearedAt[cleared]; dup {
+					e.Violate("history-repeat", "history/key-image-twice-up-to-torsion", "key image %x of %x (block %d position %d) equals, up to a small-order component (same 8*I), a key image already spent by %x: the same output is spent twice", k[:4], hash[:4], ht, i, first[:4])
+					return
+				}
+				h.clearedAt[cleared] = hash
 			}
 		}
 		h.height = ht
@@ -128,6 +141,9 @@ func run(c *kernel.Ctx) {
 			if rc.ExtRate < 2 {
 				rc.ExtRate = 2
 			}
+			// transactions that fail in execution are a regular part of the mix
+			rc.W.CreateFail += 2
+			rc.VMFailExt += 2
 		},
 		UTXOShare:   [2]int{3, 4},
 		NoContracts: true, // code changes at a destination are C15's subject
